@@ -125,4 +125,40 @@ CHECKS['C05'] = dict(
     assumptions=['an archive object is judged against a freshly opened object on the same bytes: behaviour common to both is judged by clauses 1 and 3 only'],
 )
 
+CHECKS['C06'] = dict(
+    src='checks/c06_map_roundtrip.cpp',
+    runs=[dict(cfg='asan')],
+    technique='small-scope exhaustive enumeration of well-formed maps (reference serializer) + explicit-state BFS over public edit histories in lock-step with a reference map',
+    level_text='Well-formed maps are generated by the independent ref_map serializer over 12 dimensions (log-width 0,1,2,5,6,10; height 0..3; tile bits; saved-game word 0,1,2,0x100,2^32-1; version tags incl. 2^31-1 and 2^32-1; clip rectangles incl. INT_MIN/INT_MAX; 7 tileset-source patterns with empty and non-empty names; 0..2 mappings and terrain types; 7 tile-group patterns incl. zero-area groups; undocumented word; trailing bytes): quick = base + all single and pair deviations (685 maps), thorough = full product of the six structural dimensions x data dimensions with <=2 deviations (1.46 M maps). For each: ReadMap accepts, every field equals the reference, Write equals the predicted bytes (consumed bytes with the flag normalised to 0/1, undocumented word regenerated, trailing dropped), re-read is equal in every field (public and private), second Write is byte-identical. Edit histories: from four seeds (32x2, 64x2, with/without empty tileset sources) every history up to depth 3 (thorough 4) over SetCellType (4 values x 5-6 positions incl. the 32-column block boundary), SetLavaPossible, SetVersionTag (incl. a tag below the minimum) and TrimTilesetSources: after every edit the serialised map must equal the reference map with the same edit applied, and re-read must succeed iff the tag is >= 0x1010.',
+    level_note='Trusts ref_map (120 lines) and g++/ASan/UBSan. Un-normalised variants (flag 2, foreign undocumented word) may be rejected by the reader without a violation (counted). Tile groups whose width*height overflows 32 bits and maps beyond 1024x3 are not enumerated.',
+    rule='state = one well-formed map / one (map, reference) product state; transitions = read/write calls and edits compared',
+    bounds={'quick': '685 maps (deviation<=2 over 12 dimensions); edit depth 3 on 4 seeds', 'thorough': '1.46 M maps; edit depth 4'},
+    must_hit={'any': ['accept/writer-form', 'accept/with-trailing-bytes', 'shape/width-1', 'shape/height-0', 'shape/zero-area-group', 'shape/empty-source-name', 'edit/edges', 'edit/low-version-tag-written']},
+    assumptions=['TrimTilesetSources removes sources with an empty name or zero tiles (as the test suite documents)'],
+)
+
+CHECKS['C07'] = dict(
+    src='checks/c07_map_faults.cpp',
+    runs=[dict(cfg='asan')],
+    technique='deviation-bounded fault enumeration over reference-encoded maps and saved games (every prefix, field x boundary value, byte substitutions, field pairs, a full log-width x height grid) executed on the real readers under ASan+UBSan',
+    level_text='Seeds: five reference maps (1x0 with empty tables, 32x2, 64x3 with all tables populated, trailing bytes, five tileset sources) and three reference saved games (with/without units and free list). Every proper prefix of every seed (thorough; quick: all maps and one 370 KB saved game) is presented through a MemoryReader whose tail is ASan-poisoned: prefixes cutting the consumed portion must be rejected, prefixes cutting only trailing bytes accepted. Every header/count/length field x ~45 boundary values, byte substitutions in the parsed regions, all field pairs x 10x10 values (thorough), and the full grid of 48 log-width values (0..40, 63..65, 2^31, 2^32-1, ...) x 40 heights (all 2^k, 0, 3, 2^32-1, ...) on a map and a saved game: the reader must fail with an ordinary error or return a map whose tile array has exactly width x height entries (64-bit product) with width a power of two, without sanitizer report (over-wide shifts are UBSan reports) and within the watchdog. For each of the 685 maps of the C06 quick set the saved game embedding it must yield the same dimensions, tiles, clip rectangle, tileset sources, mappings and terrain types as the map file.',
+    level_note='Trusts ref_map, g++/ASan/UBSan. Allocation requests above 64 MiB are answered with bad_alloc by the harness allocator, so corrupted counts end in an ordinary error. Coverage-guided mutation is not used.',
+    rule='case = a block of prefixes / mutants / grid points; states = inputs parsed; transitions = reader calls judged',
+    bounds={'quick': 'prefix sweep on 5 maps + 1 saved game; level-1 faults on 8 seeds; 2 grids of 48x40; 685 equivalence pairs', 'thorough': 'prefix sweep on all 8 seeds; level 2 field pairs'},
+    must_hit={'any': ['prefix/cuts-consumed-portion', 'prefix/only-trailing-bytes-cut', 'fault/accepted', 'fault/refused', 'grid/over-wide-shift', 'grid/product-exceeds-32-bits', 'grid/representable', 'equivalence/pairs']},
+    assumptions=['the extent consumed by the reader is the reference encoder\'s length without trailing bytes'],
+)
+
+CHECKS['C16'] = dict(
+    src='checks/c16_map_tiles.cpp',
+    runs=[dict(cfg='asan')],
+    technique='exhaustive enumeration of all map widths x all heights 1..256 x all coordinates, all field values, executed on the real Map accessors',
+    level_text='All 1536 maps of width 2^5..2^10 and height 1..256 are read from reference-encoded bytes; for every one of the 6.6e7 in-range coordinates the tile index equals ((x>>5)*H+y)*32+(x&31), the indices cover the tile array exactly once (bitmap), and GetCellType, GetLavaPossible, GetTileMappingIndex, GetTilesetIndex and GetImageIndex return the corresponding bit fields of the addressed word / the fields of the mapping entry it refers to (2048 distinct entries); reported width, height and tile count equal the header. On small maps (quick <= 32x4, thorough <= 64x8 and 128x2) every setter call on every coordinate is followed by a diff of the whole tile array against a shadow copy: exactly the addressed word changes, exactly in the named field; larger maps diff the word and its +-1, +-32, +-32H neighbours. All 32 cell types are set-then-get faithful and visible in bits 0..4 with the other 27 bits at four patterns; nine out-of-range values (32, 33, 255, -1, INT_MIN, INT_MAX, ...) are refused without change; both lava states; all 2048 mapping indices with the other bits at 0 and ~0.',
+    level_note='Trusts ref_map and g++/ASan/UBSan. The private index function is compared directly (clause 1) and, independently, through the public getters (clause 2).',
+    rule='state = one map; transitions = accessor calls judged',
+    bounds={'quick': 'all 1536 maps x all coordinates; full-array diffs on 32x1..32x4; neighbour diffs on 6 larger maps', 'thorough': 'full-array diffs on 32x1..8, 64x1..8, 128x1..2'},
+    must_hit={'any': ['addressing/maps', 'setters/full-array-diff-maps', 'setters/neighbour-diff-maps', 'values/cell-types', 'values/out-of-range-cell-types', 'values/lava-states', 'values/mapping-indices']},
+    assumptions=[],
+)
+
 NOT_APPLICABLE = {}
